@@ -9,11 +9,13 @@
    a prefix of the contract's interval output (hence inside the interval and in order) of length >= min(limit, all) —
    and the final states are related by R again (the raw contents are the contract's map; a failed batch leaves
    the contract state, hence the map, unchanged).
-   `C11_full_statement A m R` is the same without any restriction on the sequences.  It is proved for memkv (finding
+   `C11_full_statement A m R` is the same without any restriction on the operations of the sequences (the only side
+   condition left, inside refines_on, is that the model's own run contains no RPanic observation — a DelCurrent without a
+   held iterator, which the driver never issues; it is decidable, c11_cleanb evaluates it).  It is proved for memkv (finding
    C11-F3 is fixed) and REFUTED for Badger and TiKV by the two open deviations recorded in known_findings.d/C11.json,
    for which the complement is proved. *)
 From KB Require Import Base.Cases Model.Store Model.Adapters Model.C11Cases
-  Proofs.Store Proofs.AdapterLists Proofs.Adapters Proofs.C11Cases.
+  Proofs.Store Proofs.StoreSpec Proofs.AdapterLists Proofs.Adapters Proofs.C11Cases Proofs.C11TwoBatches Proofs.C11Kinds Proofs.C11Exact.
 Local Open Scope N_scope.
 
 (* ---- the contract's ordered map ---- *)
@@ -70,6 +72,66 @@ Print Assumptions C11_iter_same_bounds.
 Theorem C11_batch_sorted : forall m c ops c', cs_sorted c -> batch_eval m c ops = Applied c' -> cs_sorted c'.
 Proof. exact batch_eval_sorted. Qed.
 Print Assumptions C11_batch_sorted.
+
+(* ---- the contract's conditional operations, characterised (not merely defined): each takes effect exactly when its
+   condition holds, with exactly the stated effect; a batch is applied as a whole or fails at its first failing condition ---- *)
+Theorem C11_putnx_iff : forall m c k v t,
+  (exists c', batch_eval m c [PutIfNotExist k v t] = Applied c') <-> get (st c) k = None.
+Proof. exact putnx_iff. Qed.
+Print Assumptions C11_putnx_iff.
+
+Theorem C11_putnx_effect : forall m c k v t c', batch_eval m c [PutIfNotExist k v t] = Applied c' ->
+  get (st c') k = Some v /\ same_elsewhere (st c) (st c') k.
+Proof. exact putnx_effect. Qed.
+Print Assumptions C11_putnx_effect.
+
+Theorem C11_putnx_fails : forall m c k v t i a, batch_eval m c [PutIfNotExist k v t] = CondFailed i a ->
+  i = 0%nat /\ a = get (st c) k /\ a <> None.
+Proof. exact putnx_fails. Qed.
+Print Assumptions C11_putnx_fails.
+
+Theorem C11_cas_iff : forall m c k nv ov t,
+  (exists c', batch_eval m c [CAS k nv ov t] = Applied c') <-> get (st c) k = Some ov.
+Proof. exact cas_iff. Qed.
+Print Assumptions C11_cas_iff.
+
+Theorem C11_cas_effect : forall m c k nv ov t c', batch_eval m c [CAS k nv ov t] = Applied c' ->
+  get (st c') k = Some nv /\ same_elsewhere (st c) (st c') k.
+Proof. exact cas_effect. Qed.
+Print Assumptions C11_cas_effect.
+
+Theorem C11_cas_fails : forall m c k nv ov t i a, batch_eval m c [CAS k nv ov t] = CondFailed i a ->
+  i = 0%nat /\ a = get (st c) k /\ a <> Some ov.
+Proof. exact cas_fails. Qed.
+Print Assumptions C11_cas_fails.
+
+Theorem C11_delcur_by_value_iff : forall c k v stamp,
+  (exists c', batch_eval ByValue c [DelCur k v stamp] = Applied c') <-> get (st c) k = Some v.
+Proof. exact delcur_value_iff. Qed.
+Print Assumptions C11_delcur_by_value_iff.
+
+Theorem C11_delcur_by_version_iff : forall c k v stamp,
+  (exists c', batch_eval ByVersion c [DelCur k v stamp] = Applied c') <->
+  (get (st c) k <> None /\ get (stamps c) k = Some stamp).
+Proof. exact delcur_version_iff. Qed.
+Print Assumptions C11_delcur_by_version_iff.
+
+Theorem C11_delcur_effect : forall m c k v stamp c', batch_eval m c [DelCur k v stamp] = Applied c' ->
+  get (st c') k = None /\ same_elsewhere (st c) (st c') k.
+Proof. exact delcur_effect. Qed.
+Print Assumptions C11_delcur_effect.
+
+Theorem C11_batch_all_or_nothing : forall m c ops i a, batch_eval m c ops = CondFailed i a ->
+  exists pre o post w z, ops = pre ++ o :: post /\ length pre = i /\
+                         batch_go m (clock c + 1) (st c) (stamps c) 0 pre = inl (w, z) /\
+                         bop_step m (clock c + 1) w z o = inr a.
+Proof. exact batch_fails_at_first. Qed.
+Print Assumptions C11_batch_all_or_nothing.
+
+Theorem C11_batch_applied_all : forall m c ops c', batch_eval m c ops = Applied c' -> ops <> [] ->
+  batch_go m (clock c + 1) (st c) (stamps c) 0 ops = inl (st c', stamps c').
+Proof. exact batch_applied_all. Qed.
+Print Assumptions C11_batch_applied_all.
 
 (* ---- refinement, per adapter ---- *)
 
@@ -173,6 +235,104 @@ Print Assumptions C11_interleaved_serialisable.
 Example C11_interleaved_old_badger_rejected : il_oracle EBadger (true, ROther, false, true) = Some 0.
 Proof. exact il_old_badger_rejected. Qed.
 
+(* ---- exactness of the two open deviations: on EVERY operation sequence (no restriction at all) the TiKV / Badger model is
+   either accepted by the contract oracle throughout, or the oracle stops at a batch with exactly the finding's
+   signature: code 1 (an empty value is written, class other, nothing applied) resp. code 2 (a DelCurrent after a write
+   in the same batch, class ok where the contract says condition failed).  There is no other disagreement. ---- *)
+Theorem C11_refines_tikv_exact : forall ops s c h, tikv_R s c -> Forall not_panic (snd (a_run tikv s h ops)) ->
+  (exists cf, o_run_gen ByValue (batch_finding ETiKV) c h (combine ops (snd (a_run tikv s h ops))) = inl cf /\
+              tikv_R (fst (a_run tikv s h ops)) cf)
+  \/ o_run_gen ByValue (batch_finding ETiKV) c h (combine ops (snd (a_run tikv s h ops))) = inr 1.
+Proof. exact tikv_run_exact. Qed.
+Print Assumptions C11_refines_tikv_exact.
+
+Theorem C11_refines_badger_exact : forall ops s c h, badger_R s c -> stamps_le c -> held_le c h ->
+  Forall not_panic (snd (a_run badger s h ops)) ->
+  (exists cf, o_run_gen ByVersion (batch_finding EBadger) c h (combine ops (snd (a_run badger s h ops))) = inl cf /\
+              badger_R (fst (a_run badger s h ops)) cf)
+  \/ o_run_gen ByVersion (batch_finding EBadger) c h (combine ops (snd (a_run badger s h ops))) = inr 2.
+Proof. exact badger_run_exact. Qed.
+Print Assumptions C11_refines_badger_exact.
+
+(* on the driver's cases: whatever case the models reproduce, the oracle says None or the engine's own finding code *)
+Theorem C11_oracle_exact : forall c, c11_check c = true ->
+  match c with
+  | mk_c11 e steps _ => Forall not_panic (map snd steps) -> In (c11_oracle c) (exact_codes e)
+  | _ => c11_oracle c = None
+  end.
+Proof. exact c11_oracle_exact. Qed.
+Print Assumptions C11_oracle_exact.
+
+(* ---- two concurrent batches, ANY operation lists, any state (the KInterleave cases are three instances): batch 1 is begun,
+   batch 2 is begun and committed, batch 1 is committed.  On every adapter model the outcome (class of batch 1, class of
+   batch 2, final state) is that of one of the two serial orders, or batch 1 is refused without effect (failed-condition
+   class; batch 2's class and the state are then those of batch 2 alone) and then a genuine conflict exists: a key both wrote (TiKV) / a key batch 1 read from the store and batch 2
+   wrote (Badger).  memkv serialises by its mutex. ---- *)
+Theorem C11_two_batches_serialisable_memkv : forall s0 b1 b2,
+  let '(b2first, c1, c2, sf) := tx2_memkv s0 b1 b2 in b2first = false /\ (c1, c2, sf) = serial memkv s0 b1 b2.
+Proof. exact tx2_memkv_serial. Qed.
+Print Assumptions C11_two_batches_serialisable_memkv.
+
+Theorem C11_two_batches_serialisable_tikv : forall s0 b1 b2, sorted s0 ->
+  let '(b2first, c1, c2, sf) := tx2_tikv s0 b1 b2 in
+  b2first = true /\
+  tx2_verdict (serial tikv s0 b1 b2) (serial tikv s0 b2 b1) (alone tikv s0 b2) (t_conflict s0 b1 b2) (c1, c2, sf).
+Proof. exact tx2_tikv_serialisable. Qed.
+Print Assumptions C11_two_batches_serialisable_tikv.
+
+(* Badger: outside finding C11-F2 (no DelCurrent after a write to the same key inside batch 1) *)
+Theorem C11_two_batches_serialisable_badger : forall s0 b1 b2, sorted (b_map s0) -> written_before_delcur b1 [] = false ->
+  let '(b2first, c1, c2, sf) := tx2_badger s0 b1 b2 in
+  b2first = true /\
+  tx2_verdict (serial badger s0 b1 b2) (serial badger s0 b2 b1) (alone badger s0 b2) (b_conflict s0 b1 b2) (c1, c2, sf).
+Proof. exact tx2_badger_serialisable. Qed.
+Print Assumptions C11_two_batches_serialisable_badger.
+
+(* ---- what the models predict for the special case kinds of the driver (C11_oracle_sound covers all of them) ---- *)
+
+(* snapshot sequences (SHoldDrain: iterate, commit a batch, drain — judged by C11_oracle_sound like every sequence, the
+   oracle holding everything the iterator delivered against the contract state at its creation); in particular,
+   with no limit an iterator delivers exactly the interval's records at the moment of its creation, in the
+   requested direction; nothing committed later occurs in the statement *)
+Theorem C11_iterator_snapshot : forall A m (S : sim A m) s c a b, sim_R A m S s c ->
+  map item_kv (a_iter A s a b 0) = iter_all (st c) a b.
+Proof. exact snapshot_exact. Qed.
+Print Assumptions C11_iterator_snapshot.
+
+(* KWrapFault: the metrics wrapper hands every answer of its engine on unchanged *)
+Theorem C11_wrapper_passthrough : forall A,
+  (forall s k, a_get (wrapper A) s k = a_get A s k) /\
+  (forall s a b l, a_iter (wrapper A) s a b l = a_iter A s a b l) /\
+  (forall s ops, a_batch (wrapper A) s ops = a_batch A s ops) /\
+  (forall s k, a_del (wrapper A) s k = a_del A s k) /\
+  (forall s i, a_delcur (wrapper A) s i = a_delcur A s i).
+Proof. exact wrapper_passthrough. Qed.
+Print Assumptions C11_wrapper_passthrough.
+
+(* KBigBatch: any number of Puts followed by a CAS on a key that is neither stored nor among them: every adapter that
+   refines the contract answers "condition failed" and keeps its content; without the CAS it answers ok *)
+Theorem C11_big_batch_fails_whole : forall A m (S : sim A m) s c puts k nv ov t,
+  sim_R A m S s c -> okb A m S (puts ++ [CAS k nv ov t]) ->
+  Forall is_put puts -> get (st c) k = None -> ~ In k (map bop_key puts) ->
+  snd (fst (a_batch A s (puts ++ [CAS k nv ov t]))) = RCond /\
+  a_dump A (fst (fst (a_batch A s (puts ++ [CAS k nv ov t])))) = a_dump A s.
+Proof. exact big_batch_model. Qed.
+Print Assumptions C11_big_batch_fails_whole.
+
+Theorem C11_big_batch_ok : forall A m (S : sim A m) s c puts,
+  sim_R A m S s c -> okb A m S puts -> Forall is_put puts -> snd (fst (a_batch A s puts)) = ROk.
+Proof. exact big_batch_model_ok. Qed.
+Print Assumptions C11_big_batch_ok.
+
+(* validity is decidable and evaluated: a case that passes c11_cleanb and the check is covered *)
+Theorem C11_cleanb_sound : forall c, c11_cleanb c = true -> c11_clean c.
+Proof. exact c11_cleanb_ok. Qed.
+Print Assumptions C11_cleanb_sound.
+
+Theorem C11_oracle_sound_checked : forall c, c11_cleanb c = true -> c11_check c = true -> c11_oracle c = None.
+Proof. exact c11_oracle_sound_checked. Qed.
+Print Assumptions C11_oracle_sound_checked.
+
 (* ---- non-vacuity ---- *)
 
 (* the relations are inhabited by a non-trivial state, and a sequence with a failing second condition, a CAS on a
@@ -185,7 +345,7 @@ Definition ex_ops : list sop :=
    SIter [99; 57] [99; 48] 0; SIter [102] [98] 1;
    SHold [0] [255; 255] 0 0; SBatch [BPut [98] [52] 0]; SDelCur; SGet [98]].
 
-Example C11_ex_memkv : mem_R [([98], [49])] (cs_of [([98], [49])]) /\ Forall not_panic (snd (a_run memkv [] None ex_ops)).
+Example C11_ex_memkv : mem_R [([98], [49])] (cs_of [([98], [49])]) /\ Forall not_panic (snd (a_run memkv [([98], [49])] None ex_ops)).
 Proof. split; [repeat split; repeat constructor|]. vm_compute. repeat constructor. Qed.
 
 (* the witness of the repaired finding C11-F3 stays: the contract oracle now accepts memkv's answers to it *)
@@ -193,11 +353,12 @@ Example C11_f3_witness_accepted :
   exists cf, o_run_gen ByValue (fun _ _ => 0) (cs_of []) None (combine f3_ops (snd (a_run memkv [] None f3_ops))) = inl cf.
 Proof. exact f3_witness_accepted. Qed.
 
-Example C11_ex_tikv : tikv_R [([98], [49])] (cs_of [([98], [49])]) /\ Forall not_panic (snd (a_run tikv [] None ex_ops)).
-Proof. split; [repeat split; repeat constructor|]. vm_compute. repeat constructor. Qed.
+Example C11_ex_tikv : tikv_R [([98], [49])] (cs_of [([98], [49])]) /\ seq_nonempty ex_ops /\
+  Forall not_panic (snd (a_run tikv [([98], [49])] None ex_ops)).
+Proof. split; [repeat split; repeat constructor|]. split; [repeat constructor; discriminate|]. vm_compute. repeat constructor. Qed.
 
 Example C11_ex_badger : badger_R (mk_bstate [([98], ([49], 0))] 0) (cs_of [([98], [49])]) /\ seq_fresh ex_ops /\
-  Forall not_panic (snd (a_run badger (mk_bstate [] 0) None ex_ops)).
+  Forall not_panic (snd (a_run badger (mk_bstate [([98], ([49], 0))] 0) None ex_ops)).
 Proof. split; [repeat split; repeat constructor|]. split; [repeat constructor|]. vm_compute. repeat constructor. Qed.
 
 (* the oracle is not vacuous: it rejects a wrong answer (a CAS on a missing key reported as not-found, the defect
@@ -210,3 +371,63 @@ Example C11_oracle_rejects_leak :
   c11_oracle (mk_c11 ETiKV [(SBatch [BPut [98] [49] 0], OBatch ROk None);
                             (SIter [99; 57] [99; 48] 0, OIter ROk [([98], [49])])] [([98], [49])]) = Some 0.
 Proof. vm_compute. reflexivity. Qed.
+
+(* the three verdicts of C11_two_batches_serialisable all occur (TiKV model, store {b -> 1}) *)
+Example C11_two_batches_verdicts :
+  (* disjoint keys: applied, the serial order b2, b1 *)
+  tx2_tikv [([98], [49])] [Put [97] [120] 0] [Put [99] [121] 0] = (true, ROk, ROk, [([97], [120]); ([98], [49]); ([99], [121])]) /\
+  (* batch 1's condition fails on its own snapshot: the serial order b1, b2 *)
+  tx2_tikv [([98], [49])] [CAS [98] [50] [57] 0; Put [97] [120] 0] [Put [98] [51] 0] = (true, RCond, ROk, [([98], [51])]) /\
+  (* the guard is invalidated by batch 2: refused without effect *)
+  tx2_tikv [([98], [49])] [CAS [98] [49] [49] 0; Put [97] [120] 0] [Put [98] [51] 0] = (true, RCond, ROk, [([98], [51])]).
+Proof. repeat split; vm_compute; reflexivity. Qed.
+
+(* the hypotheses of the exactness theorems hold at the start, and both alternatives occur *)
+Example C11_exact_inhabited :
+  tikv_R [] (cs_of []) /\ badger_R (mk_bstate [] 0) (cs_of []) /\ stamps_le (cs_of []) /\ held_le (cs_of []) None /\
+  o_run_gen ByValue (batch_finding ETiKV) (cs_of []) None (combine f1_ops (snd (a_run tikv [] None f1_ops))) = inr 1 /\
+  o_run_gen ByVersion (batch_finding EBadger) (cs_of []) None (combine f2_ops (snd (a_run badger (mk_bstate [] 0) None f2_ops))) = inr 2.
+Proof.
+  split; [repeat split; constructor|]. split; [repeat split; constructor|]. split; [exact stamps_le_init|].
+  split; [intros i H; discriminate|]. split; vm_compute; reflexivity.
+Qed.
+
+(* a positive case: what the TiKV model answers to ex_ops, as a driver case: clean, passes the check, accepted *)
+Definition ex_case : c11_case :=
+  let '(sf, obs) := a_run tikv [] None ex_ops in mk_c11 ETiKV (combine ex_ops obs) (a_dump tikv sf).
+
+Example C11_ex_case_covered : c11_cleanb ex_case && c11_check ex_case = true /\ c11_oracle ex_case = None.
+Proof. split; vm_compute; reflexivity. Qed.
+
+(* hypotheses of the batch-level and big-batch theorems on concrete states *)
+Example C11_ex_batch_hypotheses :
+  tikv_R [] (cs_of []) /\ Forall bop_wnonempty [PutIfNotExist [97] [49] 0; CAS [98] [50] [49] 0] /\
+  badger_R (mk_bstate [] 0) (cs_of []) /\ written_before_delcur [Put [97] [49] 0; DelCur [98] [49] 0] [] = false /\
+  okb tikv ByValue sim_tikv ([Put [97] [49] 0; Put [98] [50] 0] ++ [CAS [122] [49] [50] 0]) /\
+  Forall is_put [Put [97] [49] 0; Put [98] [50] 0] /\ get (st (cs_of [])) [122] = None /\
+  ~ In [122] (map bop_key [Put [97] [49] 0; Put [98] [50] 0]).
+Proof.
+  repeat split; try (repeat constructor; discriminate); try reflexivity.
+  cbn. intros [H|[H|[]]]; discriminate.
+Qed.
+
+(* C11_atomic_*: batches that do not answer ok exist (and leave the state alone) *)
+Example C11_ex_atomic :
+  mem_batch_run [([98], [49])] [Put [97] [49] 0; CAS [98] [50] [57] 0] = ([([98], [49])], RCond, Some (1%nat, [98], Some [57])) /\
+  snd (fst (b_batch (mk_bstate [] 0) [Put [97] [49] 0; CAS [98] [50] [57] 0])) <> ROk /\
+  snd (fst (t_batch_env EnvWriteConflict [] [Put [97] [49] 0])) <> ROk.
+Proof. repeat split; vm_compute; (reflexivity || discriminate). Qed.
+
+(* C11_two_batches_serialisable_badger: hypotheses and the three verdicts on Badger *)
+Definition ex_bstate : bstate := mk_bstate [([98], ([49], 1))] 1.
+Example C11_two_batches_badger :
+  sorted (b_map ex_bstate) /\ written_before_delcur [CAS [98] [49] [49] 0; Put [97] [120] 0] [] = false /\
+  (let '(b2first, c1, c2, sf) := tx2_badger ex_bstate [CAS [98] [49] [49] 0; Put [97] [120] 0] [Put [98] [51] 0] in
+   (b2first, c1, c2, b_store sf)) = (true, RCond, ROk, [([98], [51])]) /\
+  (let '(b2first, c1, c2, sf) := tx2_badger ex_bstate [Put [97] [120] 0] [Put [99] [121] 0] in
+   (b2first, c1, c2, b_store sf)) = (true, ROk, ROk, [([97], [120]); ([98], [49]); ([99], [121])]).
+Proof. repeat split; try (repeat constructor); vm_compute; reflexivity. Qed.
+
+(* C11_refines_wrapper: the relation of the wrapped adapter is the inner one's, inhabited at the start *)
+Example C11_ex_wrapper : sim_R (wrapper memkv) ByValue (sim_wrapper memkv ByValue sim_memkv) (a_init (wrapper memkv)) (cs_of []).
+Proof. exact (sim_init _ _ (sim_wrapper memkv ByValue sim_memkv)). Qed.
